@@ -130,6 +130,11 @@ impl ServerModel {
                         self.out.insert(*id, Req::Connect { app: got.clone(), tx: tx.to_bits() });
                         Ok(())
                     }
+                    [] if self.connected.is_some() || self.out.values().any(|r| matches!(r, Req::Connect { .. })) => {
+                        // a further connect while connected / while one is unanswered: the statement does
+                        // not say it has to be surfaced again
+                        Ok(())
+                    }
                     other => v("connect/not-surfaced", format!("well-formed connect must raise exactly one ConnectionRequested, got {:?} (err {:?})", other, o.err)),
                 }
             }
@@ -146,6 +151,10 @@ impl ServerModel {
             SAct::CreateStream { tx } => {
                 none("createStream")?;
                 let results: Vec<&Out> = outs.iter().filter(|x| matches!(&x.m, M::Command { name, .. } if name == "_result")).collect();
+                if results.is_empty() && self.connected.is_none() {
+                    // before a connection was accepted the statement does not require streams to be created
+                    return Ok(());
+                }
                 if results.len() != 1 {
                     return v("createStream/no-result", format!("createStream must be answered with exactly one _result, got {:?} (err {:?})", outs, o.err));
                 }
